@@ -491,7 +491,7 @@ Proof. rewrite firstn_app, Nat.sub_diag, firstn_all. cbn. apply app_nil_r. Qed.
 (** the phase names of the ObjectSet under reconciliation are pairwise distinct *)
 Definition phase_names_unique (c : scase) : bool :=
   match find_set (sc_sets c) (sc_kind c) (sc_ns c) (sc_name c) with
-  | Some m => nodupb N.eqb (map ph_name (os_phases m))
+  | Some m => negb (is_activeb m) || negb (SetMonitors.keys_nodup m) || nodupb N.eqb (map ph_name (os_phases m))
   | None => true
   end.
 
@@ -502,7 +502,7 @@ Proof.
   unfold phase_names_unique in Hnames.
   destruct (find_set (sc_sets c) (sc_kind c) (sc_ns c) (sc_name c)) as [m|] eqn:Ef; [|reflexivity].
   destruct (is_activeb m) eqn:Ha; [|reflexivity]. cbn [negb orb].
-  destruct (SetMonitors.keys_nodup m) eqn:Hk; [|reflexivity]. cbn [negb orb].
+  destruct (SetMonitors.keys_nodup m) eqn:Hk; [|reflexivity]. cbn [negb orb] in *.
   apply keys_nodup_iff in Hk. pose proof (is_activeb_spec m Ha) as Hact.
   apply (nodupb_spec N.eqb N.eqb_eq) in Hnames.
   rewrite members_model, post_model. unfold SetCorr.model_run in E.
@@ -625,11 +625,11 @@ Definition nsless_refs_literal (c : scase) : bool :=
   match find_set (sc_sets c) (sc_kind c) (sc_ns c) (sc_name c) with
   | None => true
   | Some m =>
-      negb (is_activeb m) ||
+      negb (is_activeb m) || negb (SetMonitors.keys_nodup m) ||
       match find_cond (os_conds m) CInTransition with
       | None => true
       | Some _ =>
-          forallb (nsless_literal m) (map (spec_key m) (all_objects m)) &&
+          forallb (nsless_literal m) (all_keys m) &&
           forallb (fun ph => match find_phase (sc_phases c) (phase_kind m) (oi_ns (os_id m)) (C15Corr.join m ph) with
                              | Some p => forallb (nsless_literal m) (op_ctrlof p)
                              | None => true end) (C15Corr.delegated m)
@@ -794,16 +794,15 @@ Proof.
       unfold cond_true at 1. rewrite final_status_available_eq, final_status_in_transition_eq, Hintr. reflexivity.
     + (* InTransition *)
       rewrite final_status_in_transition_eq. destruct (in_transition (set_ctrlof mem2 ctrlof) ctrlof) eqn:Hintr; [reflexivity|].
-      rewrite Hab in Hlit. cbn [negb orb] in Hlit.
+      rewrite ?Hab, ?Hk in Hlit. cbn [negb orb] in Hlit.
       destruct (find_cond (os_conds m) CInTransition) as [ci|]; [|reflexivity]. rewrite orb_false_r.
       apply andb_true_iff in Hlit. destruct Hlit as [Hl1 Hl2]. rewrite forallb_forall in Hl1, Hl2.
       assert (Hall : forall c0, In c0 ctrlof -> nsless_literal m c0 = true).
       { intros c0 Hc0. rewrite Forall_forall in Hsound.
         destruct (Hsound c0 Hc0) as [[Hloc _]|(q & cur & Hq & Hcq & Hcur & _ & Hkq & _)].
-        - apply Hl1. unfold local_keys in Hloc. apply in_flat_map in Hloc. destruct Hloc as (ph & Hph' & Hkp).
-          apply filter_In in Hph'. destruct Hph' as [Hph' _]. rewrite (phase_keys_same _ _ Hs) in Hkp.
-          unfold phase_keys in Hkp. apply in_map_iff in Hkp. destruct Hkp as (p & <- & Hp).
-          apply in_map. unfold all_objects. apply in_flat_map. exists ph. split; [now rewrite <- Hphs|exact Hp].
+        - apply Hl1. rewrite all_keys_eq. unfold local_keys in Hloc. fold (local_phases mem1) in Hloc.
+          destruct (as_owner_keys _ _ Hs) as (Hlp & _). rewrite Hlp in Hloc.
+          erewrite flat_map_ext; [exact Hloc|]. intros ph. symmetry. now apply phase_keys_same.
         - unfold phase_obj_of in Hcur.
           destruct (rpm_back (sc_force c) mem1 _ _ _ _ _ _ _ _ _ _ _ _ _ _ Hrp Hcur) as [Hnil|(p0 & Hp0 & Hc0')]; [rewrite Hnil in Hkq; contradiction|].
           assert (Hq' : In q (C15Corr.delegated m)) by (unfold C15Corr.delegated; apply filter_In; rewrite <- Hphs; auto).
@@ -878,21 +877,32 @@ Qed.
 Lemma names_nodup_spec m : C15Corr.names_nodup m = true -> NoDup (delegated_names m (os_phases m)).
 Proof. apply (nodupb_spec N.eqb N.eqb_eq). Qed.
 
-(** an ObjectSet that has not been given a revision yet has no remote phases recorded *)
+(** an active ObjectSet that has not been given a revision yet records no remote phase under the name of one of its
+    delegated phases *)
 Definition rev_before_remotes (c : scase) : bool :=
   match find_set (sc_sets c) (sc_kind c) (sc_ns c) (sc_name c) with
-  | Some m => negb (Z.eqb (os_revision m) 0) || is_nil (os_remotes m)
+  | Some m => negb (is_activeb m) || negb (Z.eqb (os_revision m) 0) ||
+              forallb (fun ph => negb (existsb (fun r => fst r =? C15Corr.join m ph) (os_remotes m))) (C15Corr.delegated m)
   | None => true
   end.
 
-Lemma stopped2_no_reads sw m sw' e nm :
-  negb (Z.eqb (os_revision m) 0) || is_nil (os_remotes m) = true -> stopped2 sw m sw' e ->
-  forall acc, C15Corr.last_seen nm e acc = acc.
+Lemma last_seen_reads_other phs kind ns nm refs : existsb (fun r => fst r =? nm) refs = false ->
+  forall acc, C15Corr.last_seen nm (paused_reads_l phs kind ns refs) acc = acc.
 Proof.
-  intros Hh (_ & _ & _ & pre & reads & post & -> & Hpre & Hpost & Hreads) acc.
-  assert (reads = []) as ->.
-  { destruct Hreads as [->|[Hz ->]]; [reflexivity|]. rewrite Hz in Hh. cbn in Hh. destruct (os_remotes m); [reflexivity|discriminate]. }
-  rewrite !last_seen_app, (last_seen_keeps2 _ _ _ Hpre). cbn. now rewrite (last_seen_keeps2 _ _ _ Hpost).
+  induction refs as [|x l IH]; intros H acc; [reflexivity|]. cbn in H. apply orb_false_iff in H. destruct H as [Hx Hl].
+  cbn [paused_reads_l]. destruct (find_phase phs kind ns (fst x)); cbn [C15Corr.last_seen]; rewrite Hx; [now apply IH|reflexivity].
+Qed.
+
+Lemma stopped2_no_reads sw m sw' e q :
+  negb (Z.eqb (os_revision m) 0) ||
+  forallb (fun ph => negb (existsb (fun r => fst r =? C15Corr.join m ph) (os_remotes m))) (C15Corr.delegated m) = true ->
+  In q (C15Corr.delegated m) -> stopped2 sw m sw' e ->
+  forall acc, C15Corr.last_seen (C15Corr.join m q) e acc = acc.
+Proof.
+  intros Hh Hq (_ & _ & _ & pre & reads & post & -> & Hpre & Hpost & Hreads) acc.
+  rewrite !last_seen_app, (last_seen_keeps2 _ _ _ Hpre), (last_seen_keeps2 _ _ _ Hpost).
+  destruct Hreads as [->|[Hz ->]]; [reflexivity|]. rewrite Hz in Hh. cbn in Hh. rewrite forallb_forall in Hh.
+  apply last_seen_reads_other. apply negb_true_iff. now apply Hh.
 Qed.
 
 Theorem m09d_sound_partial (c : scase) :
@@ -902,7 +912,7 @@ Proof.
   cbn [as_dobs C15Corr.ds_step C15Corr.ds_pre_set set_obs_s sc_sets sc_kind sc_ns sc_name].
   destruct (find_set (sc_sets c) (sc_kind c) (sc_ns c) (sc_name c)) as [m|] eqn:Ef; [|reflexivity].
   change (C15Corr.is_activeb m) with (is_activeb m).
-  destruct (is_activeb m) eqn:Ha; [|reflexivity]. cbn [negb orb].
+  destruct (is_activeb m) eqn:Ha; [|reflexivity]. cbn [negb orb] in *.
   destruct (C15Corr.names_nodup m) eqn:Hn; [|reflexivity]. cbn [negb orb].
   pose proof (is_activeb_spec m Ha) as Hact. apply names_nodup_spec in Hn.
   assert (Ef' : find_set (sw_sets (sc_world c)) (sc_kind c) (sc_ns c) (sc_name c) = Some m) by exact Ef.
@@ -917,7 +927,10 @@ Proof.
   { intros [Hp|Hf]; [|now rewrite Hf]. unfold desired_paused in Hp. rewrite Hp, Bool.eqb_reflx. now rewrite !orb_true_r. }
   apply Hgoal. clear Hgoal.
   destruct (objectset_pass_active2 (sc_force c) (sc_world c) _ _ _ m sw e r Ef' Hact E) as [Hs|Hr].
-  { rewrite (stopped2_no_reads _ _ _ _ _ Hrb Hs) in Hls. discriminate. }
+  { assert (Hqd : In q (C15Corr.delegated m)).
+    { unfold C15Corr.delegated. apply filter_In. split; [|exact Hcq].
+      match type of Hq with In q (match ?fp with _ => _ end) => destruct fp end; [eapply upto_failing_incl; eauto|exact Hq]. }
+    rewrite (stopped2_no_reads _ _ _ _ _ Hrb Hqd Hs) in Hls. discriminate. }
   destruct Hr as (mem1 & sw1 & sw2 & pevs & rem & pr & pre & Hs & _ & _ & _ & _ & _ & Hdup & Hrp & _ & _ & _ & Hpre & Hal).
   pose proof (after_loop2_coh _ _ _ _ _ _ _ _ _ _ _ _ Hrp Hpre Hal) as Hcoh.
   pose proof Hs as (Hid & Hphs & Hlife & _).
@@ -961,8 +974,9 @@ Proof.
 Qed.
 
 (** *** The refuting case: an ObjectSet that waits for its previous revision (status.revision still 0) but - which no
-    run of the controller produces - already has a remote phase recorded reads that phase object for the Paused
-    condition and does not pause-patch it: the monitor expects every phase object the pass obtained to be synced. *)
+    run of the controller produces - already has the phase object of its delegated phase recorded in
+    status.remotePhases reads that phase object for the Paused condition and does not pause-patch it: the monitor
+    expects every phase object the pass obtained to be synced. *)
 Definition x_prev_set : oset :=
   {| os_id := {| oi_kind := KObjectSet; oi_ns := 1; oi_name := 9; oi_uid := 99 |}; os_rv := 4; os_gen := 1; os_deleting := false;
      os_fin := true; os_orphan := false; os_pkg := 0; os_life := LActive; os_phases := []; os_prev := []; os_revision := 0;
@@ -1222,7 +1236,7 @@ Qed.
 (** an ObjectSet that is being deleted / archived lists no object identity twice (its local phases) *)
 Definition going_keys_nodup (c : scase) : bool :=
   match find_set (sc_sets c) (sc_kind c) (sc_ns c) (sc_name c) with
-  | Some m => negb (is_goingb m) || SetMonitors.keys_nodup m
+  | Some m => negb (is_goingb m) || negb (C15Corr.names_nodup m) || SetMonitors.keys_nodup m
   | None => true
   end.
 
@@ -1238,7 +1252,7 @@ Proof.
   change (C15Corr.is_goingb m) with (is_goingb m).
   destruct (target_kind m) as [(_ & _ & ->)|[(Hgb & _ & Hg)|(_ & -> & _)]]; [reflexivity| |reflexivity].
   rewrite Hgb in *. cbn [negb orb] in *.
-  destruct (C15Corr.names_nodup m) eqn:Hn; [|reflexivity]. cbn [negb orb].
+  destruct (C15Corr.names_nodup m) eqn:Hn; [|reflexivity]. cbn [negb orb] in *.
   apply names_nodup_spec in Hn. apply keys_nodup_iff in Hkn.
   assert (Ef' : find_set (sw_sets (sc_world c)) (sc_kind c) (sc_ns c) (sc_name c) = Some m) by exact Ef.
   unfold SetCorr.model_run in E.
